@@ -664,6 +664,11 @@ Array<T>& Array<T>::insert(int k, const T& x)
 	Data* h = &d();
 	int n = h->n;
 	int s = h->s;
+	if (&x >= _a && &x < _a + n) // x is an element of this array: it would move or be freed below
+	{
+		T y(x);
+		return insert(k, y);
+	}
 	if (k == -1)
 		k = n;
 	if (n < s) {}
